@@ -29,6 +29,8 @@ func (v *Verifier) ghostHeap(st *State, key string) *Term {
 		s = ArraySort(IntSort, BVSort(64))
 	case gBigBits:
 		s = ArraySort(IntSort, ArraySort(IntSort, BoolSort))
+	case gBigVal:
+		s = ArraySort(IntSort, IntSort)
 	}
 	return v.eng.heap(st, key, s)
 }
